@@ -164,9 +164,11 @@ def _regex_of(arg):
     return re.compile(m.group(1))
 
 
-def _find_line(text, rx, what):
+def _find_line(text, rx, what, first=False):
     lines = text.split('\n')
     hits = [k for k, l in enumerate(lines) if rx.search(l)]
+    if first and hits:
+        hits = hits[:1]
     if len(hits) != 1:
         raise LostAnchor('anchor %s /%s/ matches %d lines' % (what, rx.pattern, len(hits)))
     off = sum(len(l) + 1 for l in lines[:hits[0]])
@@ -283,10 +285,13 @@ def expand_fn(src, item_path, subs, log, tline):
             # ghost block right after the opening brace of the body: needs no anchor inside the body
             edits.append((it.hdr_end + 1, 0, '\n' + ptxt + '\n', ln))
             log.append({'rule': 'R2', 'item': name, 'what': 'ghost block at function start (%d lines)' % len(payload)})
-        elif d.startswith('before ') or d.startswith('after '):
+        elif d.startswith('before ') or d.startswith('after ') or d.startswith('before1 ') or d.startswith('after1 '):
+            # `before1` / `after1`: the FIRST matching line (lets an anchor list alternatives: /line A|line B/ picks A, or B when A is gone)
             w, arg = d.split(' ', 1)
             rx = _regex_of(arg)
-            s, e = _find_line(text, rx, 'in ' + name)
+            first = w.endswith('1')
+            w = w.rstrip('1')
+            s, e = _find_line(text, rx, 'in ' + name, first=first)
             edits.append(((s if w == 'before' else e), 0, ptxt + '\n', ln))
             log.append({'rule': 'R2', 'item': name, 'what': '%s /%s/: ghost block (%d lines)' % (w, rx.pattern, len(payload))})
         elif d.startswith('sub ') or d.startswith('let '):
